@@ -1,0 +1,15 @@
+//go:build verif && linux && amd64
+
+package transforms32
+
+// VerifHasAsm reports whether the assembly kernels are compiled in.
+const VerifHasAsm = true
+
+// VerifAsmDCT64 runs the assembly 64-point kernel in place.
+func VerifAsmDCT64(input []float32) { asmForwardDCT64(input) }
+
+// VerifAsmDCT256 runs the assembly 256-point kernel in place.
+func VerifAsmDCT256(input []float32) { asmForwardDCT256(input) }
+
+// VerifAsmDCT2DHash64 runs the assembly 2-D kernel.
+func VerifAsmDCT2DHash64(input []float32) [64]float32 { return asmDCT2DHash64(input) }
